@@ -4,9 +4,11 @@
 package net
 
 import (
+	"crypto/tls"
 	"encoding/json"
 	"errors"
 	"fmt"
+	"io"
 	stdnet "net"
 	"os"
 	"strings"
@@ -507,6 +509,11 @@ type UCase struct {
 	// Group: the episodes of one run (they run side by side).  Journaled before they start: a process
 	// that does not survive an unreachable peer publishes nothing, and the group is the reproduction.
 	Group []UCase `json:"group,omitempty"`
+	// Peer: "" = nobody holds the port open for connections; "stranger" (TLS) = something accepts TCP
+	// connections there but its certificate is of an unrelated CA: no handshake succeeds, the peer
+	// "cannot be reached" just the same; "late" = the first dial attempts are refused, then the peer
+	// is listening (see runLate)
+	Peer string `json:"peer,omitempty"`
 }
 
 type sentinel struct{ N int }
@@ -536,6 +543,12 @@ func runEpisode(c UCase) error {
 		return nil
 	}
 	if c.K < 1 || c.K > 50 {
+		return nil
+	}
+	if c.Peer == "late" {
+		return runLate(c)
+	}
+	if c.Peer == "stranger" && !c.TLS {
 		return nil
 	}
 	a, ra, _, err := nodeCfg("", c.TLS)
@@ -592,6 +605,39 @@ func runEpisode(c UCase) error {
 		}
 		return true
 	}
+	stopStranger := func() {}
+	if c.Peer == "stranger" {
+		scfg, err := strangerTLS()
+		if err != nil {
+			return fmt.Errorf("harness: TLS material: %v", err)
+		}
+		release()
+		l, err := tls.Listen("tcp", dead, scfg)
+		if err != nil {
+			return fmt.Errorf("harness: %v", err)
+		}
+		own(dead, true)
+		go func() {
+			for {
+				conn, err := l.Accept()
+				if err != nil {
+					return
+				}
+				go func() {
+					defer conn.Close()
+					buf := make([]byte, 1024)
+					for {
+						if _, err := conn.Read(buf); err != nil {
+							return
+						}
+					}
+				}()
+			}
+		}()
+		var once sync.Once
+		stopStranger = func() { once.Do(func() { l.Close(); own(dead, false) }) }
+		defer stopStranger()
+	}
 	tpid := actor.NewPID(dead, "t/0")
 	for i := 0; i < c.K; i++ {
 		a.Send(tpid, &remote.TestMessage{Data: []byte(fmt.Sprintf("0:%d:msg", i))})
@@ -609,6 +655,7 @@ func runEpisode(c UCase) error {
 	}
 	// the peer comes up on that address; a later send must make a fresh, successful attempt
 	release()
+	stopStranger()
 	b, rb, _, err := nodeCfg(dead, c.TLS)
 	if err != nil {
 		return err
@@ -656,11 +703,125 @@ loop:
 	return nil
 }
 
+// runLate: the address refuses the first connection attempts and accepts later ones (a peer that
+// comes up while the writer is still trying).  The address is a small forwarder owned by the harness,
+// which counts the connections it accepted and passes them on to the real peer: whether an attempt
+// got through is observed, not inferred from a clock.  Allowed outcomes: every message arrives, in
+// order, and nothing is reported; or no attempt got through (a slow machine: the forwarder came up
+// after the last attempt) and the address is reported unreachable with one dead letter per message.
+// An address that is reported unreachable although an attempt got through - messages dead-lettered
+// over a standing connection - is neither.
+func runLate(c UCase) error {
+	a, ra, _, err := node("")
+	if err != nil {
+		return err
+	}
+	defer ra.Stop()
+	b, rb, addrB, err := node("")
+	if err != nil {
+		return err
+	}
+	defer rb.Stop()
+	own(addrB, true)
+	defer own(addrB, false)
+	front, release, err := reserve()
+	if err != nil {
+		return fmt.Errorf("harness: %v", err)
+	}
+	defer release()
+	var (
+		mu      sync.Mutex
+		cond    = sync.NewCond(&mu)
+		unreach int
+		dls     int
+		got     []string
+	)
+	mon := a.SpawnFunc(func(ctx *actor.Context) {
+		mu.Lock()
+		defer mu.Unlock()
+		switch ev := ctx.Message().(type) {
+		case actor.RemoteUnreachableEvent:
+			if ev.ListenAddr == front {
+				unreach++
+			}
+		case actor.DeadLetterEvent:
+			if ev.Target != nil && ev.Target.ID == "stream/"+front {
+				dls++
+			}
+		}
+		cond.Broadcast()
+	}, "monitor")
+	a.Subscribe(mon)
+	b.SpawnFunc(func(ctx *actor.Context) {
+		if m, ok := ctx.Message().(*remote.TestMessage); ok {
+			mu.Lock()
+			got = append(got, string(m.Data))
+			cond.Broadcast()
+			mu.Unlock()
+		}
+	}, "t", actor.WithID("0"))
+	tpid := actor.NewPID(front, "t/0")
+	for i := 0; i < c.K; i++ {
+		a.Send(tpid, &remote.TestMessage{Data: []byte(fmt.Sprintf("0:%d:msg", i))})
+	}
+	// the first attempts have been refused by now or are refused in a moment; bring the forwarder up
+	time.Sleep(150 * time.Millisecond)
+	release()
+	l, err := stdnet.Listen("tcp", front)
+	if err != nil {
+		return fmt.Errorf("harness: %v", err)
+	}
+	defer l.Close()
+	var accepted atomic.Int32
+	go func() {
+		for {
+			conn, err := l.Accept()
+			if err != nil {
+				return
+			}
+			accepted.Add(1)
+			back, err := stdnet.Dial("tcp", addrB)
+			if err != nil {
+				conn.Close()
+				continue
+			}
+			go func() { io.Copy(back, conn); back.Close() }()
+			go func() { io.Copy(conn, back); conn.Close() }()
+		}
+	}()
+	tm := time.AfterFunc(wait, func() { mu.Lock(); cond.Broadcast(); mu.Unlock() })
+	defer tm.Stop()
+	deadline := time.Now().Add(wait)
+	mu.Lock()
+	defer mu.Unlock()
+	for len(got) < c.K && unreach == 0 {
+		if time.Now().After(deadline) {
+			return fmt.Errorf("%w: neither delivery nor RemoteUnreachableEvent for the late peer", errInconclusive)
+		}
+		cond.Wait()
+	}
+	if unreach > 0 {
+		if n := accepted.Load(); n > 0 {
+			return fmt.Errorf("%s refused the first connection attempts and accepted a later one (the forwarder in front of the peer took %d connection(s)); the writer reported the address unreachable all the same: %d of %d messages arrived, %d DeadLetterEvents", front, n, len(got), c.K, dls)
+		}
+		return nil // no attempt got through: a legitimate "cannot be reached" (judged by the plain episodes)
+	}
+	for i, d := range got {
+		if d != fmt.Sprintf("0:%d:msg", i) {
+			return fmt.Errorf("the late peer received %v: not the sent sequence", got)
+		}
+	}
+	if dls != 0 {
+		return fmt.Errorf("all %d messages reached the late peer, and %d DeadLetterEvents name its stream writer", c.K, dls)
+	}
+	return nil
+}
+
 func TestUnreachable(t *testing.T) {
 	st := vh.Test("TestUnreachable")
-	n := 3
+	n := 6
 	if vh.Tier() == "thorough" {
-		n = 16
+		n = 18
 	}
 	seed := vh.Seed()
 	var wg sync.WaitGroup
@@ -670,6 +831,13 @@ func TestUnreachable(t *testing.T) {
 		// K is a pure function of the seed and the episode number (no generator library here:
 		// the episodes run in parallel because each sleeps 3 s inside the stream writer)
 		cases[i] = UCase{K: 1 + int((uint64(seed)*2654435761+uint64(i)*40503)%12), N: i, TLS: i%3 == 1}
+		switch {
+		case i%6 == 4:
+			cases[i].Peer = "stranger"
+			cases[i].TLS = true
+		case i%6 == 5:
+			cases[i].Peer = "late"
+		}
 	}
 	st.Begin(UCase{Group: cases})
 	for i := 0; i < n; i++ {
@@ -685,7 +853,9 @@ func TestUnreachable(t *testing.T) {
 			st.Fail(cases[i], err)
 			t.Fatalf("%v", err)
 		}
-		if cases[i].TLS {
+		if cases[i].Peer != "" {
+			st.Done(cases[i], true, "unreachable-episode", "peer-"+cases[i].Peer)
+		} else if cases[i].TLS {
 			st.Done(cases[i], true, "unreachable-episode", "tls-dial-fails")
 		} else {
 			st.Done(cases[i], true, "unreachable-episode")
